@@ -297,6 +297,10 @@ pub fn install_panic_monitor() {
         } else {
             "?".into()
         };
+        if !info.can_unwind() {
+            // the process is about to abort: the runner classifies the stderr tail
+            eprintln!("NON-UNWINDING PANIC: {} @ {}", msg, loc);
+        }
         let mut p = PANICS.lock().unwrap_or_else(|e| e.into_inner());
         if p.len() < 64 {
             p.push(format!("{} @ {}", trunc(&msg, 200), loc));
